@@ -61,11 +61,52 @@ def impl_decode(name, payload: bytes) -> str:
         return exc_name(ex)
 
 
-def impl_auto(prev, payloads):
+# one genuine message per decoder (spec-encoded lists, a P1 line): decoding it on a fresh AutoDecoder makes that
+# decoder the remembered one - the public way to put an AutoDecoder into a given history state
+PRIMERS = {
+    "Aidon_frame": "e6e7000f400000000c07e60912ba11311311fe791501020203090601019b6dacff12000002020f0316210203090600003e0700ff12000002020f03161d",
+    "Aidon_notification_body": "01020203090601019b6dacff12000002020f0316210203090600003e0700ff12000002020f03161d",
+    "Kaifa_frame": "3da1320f000dd1a4090c1cad0b0d26012107ff006bbe0209090163090879242c2c33443b4109076f447c3477213f06e260c9a4067fffffff06f9aaee36060000000106d5ba3a7606472a792a",
+    "Kaifa_notification_body": "0209090163090879242c2c33443b4109076f447c3477213f06e260c9a4067fffffff06f9aaee36060000000106d5ba3a7606472a792a",
+    "Kamstrup_frame": "e6e7000f000dd1a40c07e2031a230727030680001c02180a0e4e6478704439216b4d34685d7b300009060101600101ff0a1236383632323533303235364e32423042363409060101000005ff0a1053257521276c4446275271705f53777909060101020700ff06ffffffff000000",
+    "Kamstrup_notification_body": "02180a0e4e6478704439216b4d34685d7b300009060101600101ff0a1236383632323533303235364e32423042363409060101000005ff0a1053257521276c4446275271705f53777909060101020700ff06ffffffff000000",
+    "P1": "312d303a312e372e302830302e3330332a6b57290d0a",
+}
+
+
+class PrimerFailed(Exception):
+    pass
+
+
+def new_autodecoder(prev):
+    """An AutoDecoder whose remembered decoder is the one with index `prev` (None: fresh), reached through the public API
+    only (no private attribute is named): by decoding one genuine message of that decoder."""
     from han.autodecoder import AutoDecoder
     logging.disable(logging.CRITICAL)
     a = AutoDecoder()
-    setattr(a, "_AutoDecoder__previous_success", prev)
+    if prev is not None:
+        name = NAMES[prev]
+        try:
+            r = a.decode_message_payload(bytes.fromhex(PRIMERS[name]))
+            got = a.previous_success_decoder
+        except Exception as ex:  # noqa
+            raise PrimerFailed(f"{exc_name(ex)} while decoding the genuine {name} primer") from ex
+        if r is None or got != name:
+            raise PrimerFailed(f"the genuine {name} primer was decoded by {got}")
+    return a
+
+
+def remembered(a):
+    """index of the remembered decoder (None: none), read through the public property previous_success_decoder"""
+    name = a.previous_success_decoder
+    return None if name is None else NAMES.index(name)
+
+
+def impl_auto(prev, payloads):
+    try:
+        a = new_autodecoder(prev)
+    except PrimerFailed as ex:
+        return "EXC primer-" + str(ex).replace(" ", "_")
     out = []
     for p in payloads:
         try:
@@ -73,15 +114,10 @@ def impl_auto(prev, payloads):
         except Exception as ex:  # noqa
             out.append("EXC " + exc_name(ex))
             break
-        idx = getattr(a, "_AutoDecoder__previous_success")
         try:
-            name = a.previous_success_decoder
-            want_name = None if idx is None else AutoDecoder.payload_decoder_functions[idx][0]
+            idx = remembered(a)
         except Exception as ex:  # noqa
             out.append("EXC previous_success_decoder-" + exc_name(ex))
-            break
-        if name != want_name:
-            out.append("EXC previous_success_decoder-mismatch")
             break
         out.append(("None" if r is None else render_dict(r)) + " @" + ("N" if idx is None else str(idx)))
     return " ; ".join(out)
